@@ -36,7 +36,11 @@ func deref(t types.Type) types.Type {
 }
 
 // traceAddr walks an address (or a reference-typed value) back to its root.
-func traceAddr(v ssa.Value) Chain {
+func traceAddr(v ssa.Value) Chain { return traceAddrOpt(v, true) }
+
+// traceAddrOpt: with promote, a field reached through embedded structs is reported as a field of the embedding struct (the way the
+// source names it); without, every step is reported as it is laid out.
+func traceAddrOpt(v ssa.Value, promote bool) Chain {
 	var ch Chain
 	seen := map[ssa.Value]bool{}
 	for v != nil && !seen[v] {
@@ -48,8 +52,18 @@ func traceAddr(v ssa.Value) Chain {
 			if s, ok := st.Underlying().(*types.Struct); ok && x.Field < s.NumFields() {
 				name = s.Field(x.Field).Name()
 			}
+			// a field promoted from an embedded struct counts as a field of the struct that embeds it
+			next := x.X
+			for {
+				outer, ok := next.(*ssa.FieldAddr)
+				if !promote || !ok || !embeddedField(deref(outer.X.Type()), outer.Field) {
+					break
+				}
+				st = deref(outer.X.Type())
+				next = outer.X
+			}
 			ch.Steps = append(ch.Steps, Step{Kind: "field", Struct: st, Field: name})
-			v = x.X
+			v = next
 		case *ssa.Field:
 			st := x.X.Type()
 			name := ""
